@@ -159,6 +159,51 @@ def check(prog, rep):
                        f"dominated by isinstance({recv}, Constant)" if ok else
                        f"reads the value of {recv} through getattr without an isinstance({recv}, Constant) guard: a Parameter has a .value too, so its current value is folded into the built artefact",
                        loc=f"{fi.module.rel}:{n.lineno}", detail="eager-read")
+    # build-time evaluation of a sub-expression inside an artefact builder reads every leaf beneath it, Parameters included
+    n_eval = 0
+    for fi in prog.functions.values():
+        if fi.module.name not in ("optyx.core.compiler", "optyx.core.autodiff"):
+            continue
+        assigns = local_assignments(fi.node)
+        top = fi
+        while top.parent is not None:
+            top = top.parent
+        returns_closure = any(isinstance(r, ast.Return) and (isinstance(r.value, ast.Lambda) or (isinstance(r.value, ast.Name) and any(isinstance(d, ast.FunctionDef) and d.name == r.value.id for d in ast.walk(top.node) if d is not top.node)))
+                              for r in ast.walk(top.node))
+        if not returns_closure:
+            continue
+        for n in walk_local(fi.node):
+            if not (isinstance(n, ast.Call) and isinstance(n.func, ast.Attribute) and n.func.attr == "evaluate"):
+                continue
+            lam = enclosing_function(n)
+            if lam is not fi.node:
+                continue                      # inside a lambda: call time
+            if fi.parent is not None and fi.node.args.args and fi.node.args.args[0].arg in ("x", "values", "point"):
+                continue                      # a nested closure body (def f(x): ...): call time
+            fparams = {a.arg for a in fi.node.args.args + fi.node.args.kwonlyargs}
+            if n.args and isinstance(n.args[0], ast.Name) and n.args[0].id in fparams:
+                continue                      # evaluates at values the caller supplies
+            recv = src(n.func.value)
+            n_eval += 1
+            construct = f"{fi.qual.split(':')[1]}:{recv}.evaluate()"
+            loc = f"{fi.module.rel}:{n.lineno}"
+            if implied_constant(n, recv, assigns):
+                rep.ob("R12.1", construct, True, f"dominated by isinstance({recv}, Constant)", loc=loc, detail="constant-guarded", robust=True)
+                continue
+            verdict = _guard_evidence(fi, n, recv, assigns)
+            if verdict == "none":
+                for t, _pol in dominating_guards(n) + preceding_exit_guards(n):
+                    for c in ast.walk(t):
+                        if isinstance(c, ast.Call) and isinstance(c.func, ast.Attribute) and src(c.func.value) == recv and c.func.attr not in ("get_variables", "evaluate"):
+                            verdict = "unknown"
+            if verdict == "unknown":
+                rep.undecided(f"{construct}: evaluated while the artefact is built, under a test of {recv} this rule cannot follow: not decided")
+                continue
+            rep.ob("R12.1", construct, False,
+                   f"`{src(n)[:50]}` evaluates the sub-expression while the compiled artefact is being built and the number is captured by the returned closure; nothing establishes that {recv} holds no Parameter "
+                   f"(having no *variables* does not: (2 * p) * x has a variable-free factor 2 * p), so the parameter's value at compile time is frozen and later Parameter.set() calls are ignored",
+                   loc=loc, detail="eager-read", robust=True)
+    rep.saw("build-time evaluate() calls in artefact builders", n_eval)
     rep.saw("`.value` read sites classified", n_sites)
     # isinstance tests that put Parameter next to Constant in folding code
     for fi in prog.functions.values():
